@@ -1,7 +1,8 @@
 (* C12 - JSON game logs are schema-valid and read back exactly as written.
    Only statements, each closed by [exact]; proofs are in the files imported below. *)
 From BE Require Import Gen.JsonFns Proofs.JsonGen Proofs.JsonGenCor.
-From BE Require Import Model.Json Model.Schema Gen.JsonFraming Gen.Schemas Proofs.Json.
+From BE Require Import Model.Json Model.Schema Model.JsonFramingHand Model.SchemasHand Proofs.Json Proofs.JsonPins.
+From BE Require Gen.JsonFraming Gen.Schemas.
 From Coq Require Import ZArith.
 Local Open Scope string_scope.
 Local Open Scope list_scope.
@@ -107,6 +108,23 @@ Theorem C12_schema_generated :
   validates log_schema (g_logs_doc rs) = true.
 Proof. exact g_logs_schema_valid. Qed.
 Print Assumptions C12_schema_generated.
+
+(* the literals JsonWriter.open / close / _write_content write, re-read from writer.py on this run, are the ones the proofs use *)
+Theorem C12_source_framing_is_the_modelled_one :
+  Gen.JsonFraming.json_framing = Model.JsonFramingHand.json_framing.
+Proof. exact framing_pinned. Qed.
+Print Assumptions C12_source_framing_is_the_modelled_one.
+
+Theorem C12_source_tags_are_the_modelled_ones :
+  Gen.JsonFraming.tag_logs = Model.JsonFramingHand.tag_logs /\ Gen.JsonFraming.tag_settings = Model.JsonFramingHand.tag_settings.
+Proof. exact tags_pinned. Qed.
+Print Assumptions C12_source_tags_are_the_modelled_ones.
+
+(* log_format.schema.json, re-read on this run, is the schema term the proofs use *)
+Theorem C12_source_schema_is_the_modelled_one :
+  Gen.Schemas.log_schema = Model.SchemasHand.log_schema.
+Proof. exact log_schema_pinned. Qed.
+Print Assumptions C12_source_schema_is_the_modelled_one.
 
 (* non-vacuity *)
 Theorem C12_example_written_and_read :
